@@ -173,11 +173,21 @@ func TestC08_Save(t *testing.T) {
 		n := rapid.IntRange(1, 6).Draw(t, "saves")
 		hostile, replaced, multiline := false, false, false
 		mainCopy := false
+		wsTwin := false
 		var steps []string
 		for s := 0; s < n; s++ {
 			var cmdStr, ccls string
 			if len(model) > 0 && rapid.IntRange(0, 3).Draw(t, "reuse") == 0 {
 				cmdStr, ccls = model[rapid.IntRange(0, len(model)-1).Draw(t, "which")].Command, "reused"
+			} else if len(model) > 0 && rapid.IntRange(0, 5).Draw(t, "ws-twin") == 0 {
+				// a different command string that differs from a stored one only in surrounding blanks
+				base := model[rapid.IntRange(0, len(model)-1).Draw(t, "twin-of")].Command
+				cmdStr = rapid.SampledFrom([]string{base + " ", " " + base, "\t" + base, base + "  ", strings.TrimSpace(base)}).Draw(t, "twin")
+				ccls = "ws-twin"
+				if cmdStr == base || cmdStr == "" {
+					cmdStr, ccls = base+" ", "ws-twin"
+				}
+				wsTwin = true
 			} else if rapid.IntRange(0, 5).Draw(t, "main-copy") == 0 {
 				// the user's own version of a built-in command: same command string as a main entry
 				cmdStr, ccls = c08Main[rapid.IntRange(0, len(c08Main)-1).Draw(t, "which-main")].Command, "main-copy"
@@ -356,6 +366,9 @@ func TestC08_Save(t *testing.T) {
 		}
 		if mainCopy {
 			labels = append(labels, "same-command-as-main-entry")
+		}
+		if wsTwin {
+			labels = append(labels, "whitespace-twin-command")
 		}
 		rec.Case((n >= 2 && hostile) || replaced, map[string]any{"start": start, "steps": steps, "entries": len(model)}, labels...)
 	})
